@@ -13,7 +13,7 @@ import sys
 
 import numpy as np
 
-from ..common import HarnessError, Report, VERIF, pmap
+from ..common import HarnessError, REPO, Report, VERIF, pmap
 
 PID = "C20"
 CORE = ["max_fun_evals", "max_iter", "tol_mesh", "tol_fun", "tol_stall_iters", "uncertainty_handling", "noise_final_samples",
@@ -255,7 +255,7 @@ def drive(hist):
 
 def _spawn(hist):
     env = dict(os.environ)
-    env["PYTHONPATH"] = "/repo:%s" % VERIF
+    env["PYTHONPATH"] = "%s:%s" % (REPO, VERIF)
     code = "import json,sys,warnings,logging; warnings.filterwarnings('ignore'); logging.disable(logging.CRITICAL)\n" \
            "from mc.props import c20\nh=[tuple(e) for e in json.loads(sys.argv[1])]\nprint('RESULT'+json.dumps(c20.drive(h), default=repr))"
     p = subprocess.run([sys.executable, "-c", code, json.dumps(hist)], capture_output=True, text=True, env=env, cwd=VERIF, timeout=600)
@@ -269,7 +269,7 @@ def _fresh(item):
     """Run c20.<fn>(args) in a fresh interpreter (the interpreter state *is* part of what C20 is about)."""
     fn, args = item
     env = dict(os.environ)
-    env["PYTHONPATH"] = "/repo:%s" % VERIF
+    env["PYTHONPATH"] = "%s:%s" % (REPO, VERIF)
     code = "import json,sys,warnings,logging; warnings.filterwarnings('ignore'); logging.disable(logging.CRITICAL)\n" \
            "from mc.props import c20\na=json.loads(sys.argv[2])\nprint('RESULT'+json.dumps(getattr(c20, sys.argv[1])(c20._detuple(a)), default=repr))"
     p = subprocess.run([sys.executable, "-c", code, fn, json.dumps(args)], capture_output=True, text=True, env=env, cwd=VERIF, timeout=900)
